@@ -132,6 +132,10 @@ class Mailbox:
         db.execute("UPDATE `mailbox_sides` SET `opened`=?, `mood`=?"
                    " WHERE `mailbox_id`=? AND `side`=?",
                    (False, mood, self._mailbox_id, side))
+        # closing is client activity too: stamp the mailbox, so that a close
+        # re-sent on a new connection (which re-opens, and thereby touches,
+        # the mailbox first) leaves the same row as the original one
+        self._touch(when)
         db.commit()
 
         # are any sides still open?
